@@ -387,7 +387,7 @@ theorem step_created (s : State) (op : Op) :
     ((∀ o, (step s op).2 ≠ .created o) ∧ (step s op).1.nextOpId = s.nextOpId) := by
   cases op <;> simp only [step, effect, State.apply, Op.creates] <;> (try split) <;> (try split) <;>
     simp [State.noop, get?_set_self, newReq, recvReq, Hdrs.get?, cidHeader, opIdHeader]
-  rename_i q _ _ _; cases q <;> simp [query]
+  rename_i q _ _ _; cases q <;> simp only [query] <;> (try split) <;> (try split) <;> simp
 
 theorem createdIds_run (ops : List Op) : ∀ s : State,
     ∃ k, k ≤ creations ops ∧ createdIds (run s ops).2 = idsFrom s.nextOpId k := by
@@ -414,18 +414,18 @@ theorem view_eq_of (s s' : State) (i : Nat) (c : Ctx) (h : s.ctxs[i]? = some c) 
   rw [hh c.req (by simp [Ctx.refs]), hh c.resp (by simp [Ctx.refs]), hh c.eph (by simp [Ctx.refs])]
 
 /-- What `Clone` produces, spelled out. -/
-theorem clone_step (s : State) (c : Nat) (x : Ctx) (hc : s.ctxs[c]? = some x) :
-    (step s (.clone c)).1.ctxs = s.ctxs ++ [⟨s.heap.length, s.heap.length + 1, s.heap.length + 2⟩] ∧
-    (step s (.clone c)).1.heap = s.heap ++ [(hget s.heap x.req).set opIdHeader (dec s.bump), hget s.heap x.resp, hget s.heap x.eph] ∧
-    (step s (.clone c)).1.rets = s.rets ∧ (step s (.clone c)).1.protos = s.protos ∧
-    (step s (.clone c)).2 = .created (some (dec s.bump)) := by
+theorem clone_step (s : State) (c : Nat) (g : Bool) (x : Ctx) (hc : s.ctxs[c]? = some x) :
+    (step s (.clone c g)).1.ctxs = s.ctxs ++ [⟨s.heap.length, s.heap.length + 1, s.heap.length + 2⟩] ∧
+    (step s (.clone c g)).1.heap = s.heap ++ [(hget s.heap x.req).set opIdHeader (dec s.bump), hget s.heap x.resp, if g then [] else hget s.heap x.eph] ∧
+    (step s (.clone c g)).1.rets = s.rets ∧ (step s (.clone c g)).1.protos = s.protos ∧
+    (step s (.clone c g)).2 = .created (some (dec s.bump)) := by
   simp [step, effect, hc, State.apply, viewOf, get?_set_self]
 
 /-- The clone owns its three maps exclusively. -/
-theorem clone_owns (s : State) (c : Nat) (x : Ctx) (h : RInv s) (hc : s.ctxs[c]? = some x) (r : Nat)
+theorem clone_owns (s : State) (c : Nat) (g : Bool) (x : Ctx) (h : RInv s) (hc : s.ctxs[c]? = some x) (r : Nat)
     (hr : r ∈ (Ctx.mk s.heap.length (s.heap.length + 1) (s.heap.length + 2)).refs) :
-    Owns (step s (.clone c)).1 s.ctxs.length r := by
-  obtain ⟨h1, h2, h3, h4, h5⟩ := clone_step s c x hc
+    Owns (step s (.clone c g)).1 s.ctxs.length r := by
+  obtain ⟨h1, h2, h3, h4, h5⟩ := clone_step s c g x hc
   have hge : s.heap.length ≤ r := by
     simp only [Ctx.refs, List.mem_cons, List.not_mem_nil, or_false] at hr; omega
   constructor
